@@ -577,7 +577,7 @@ impl Property for C13 {
         let cfg = PartCfg {
             name: "tables",
             rule: "random sequences (20-140 ops) of set/unset over 12 boundary keys, advance 1-12 blocks, commit, discard, reopen, in-window rollback, and range scans with generated bounds on real BlockCachedDatabase tables (U128 keys; (address,nonce) keys) plus a BlockDatabase on tmpfs; after every op all point reads, the generated range (complete, in encoded-key order), every 4th op the full scan, and last_key/get of the block table must equal an in-memory model with a durable and a volatile layer. Non-trivial = a rollback after a commit that changes a key, or a range scan over >= 2 uncommitted keys with further live keys outside",
-            cases: ctx.tier.pick(1600, 40_000),
+            cases: ctx.tier.pick(6000, 120_000),
             max_shrink_iters: 2000,
         };
         found.extend(explore(ctx, ev, &cfg, table_strategy, check_table));
